@@ -182,6 +182,14 @@ func (e *Engine) loadSpecs(externDir string) error {
 	}
 	sort.Strings(gone)
 	e.renamed = map[string]string{}
+	e.rebindClosures()
+	gone = gone[:0]
+	for name := range e.spec.Contracts {
+		if _, ok := e.funcs[name]; !ok {
+			gone = append(gone, name)
+		}
+	}
+	sort.Strings(gone)
 	for _, name := range gone {
 		// the contracted function no longer exists. If exactly one function without a
 		// contract has the same receiver type, the same parameter names in the same
@@ -292,6 +300,152 @@ func (e *Engine) lookupType(name string) types.Type {
 		t = types.NewPointer(t)
 	}
 	return t
+}
+
+// rebindClosures: closures are named by their position in the enclosing function
+// (`Serve$2`), so moving a function literal past another one renumbers them. When the
+// closure contracts of a function do not all fit the closures they name (parameter names
+// and result count of the header), but there is exactly one way to assign every one of
+// them to a distinct closure of that function that it does fit, the contracts follow
+// (thread roots and unit lists are translated through e.renamed). Otherwise nothing is
+// changed and the mismatch is reported the usual way.
+func (e *Engine) rebindClosures() {
+	fits := func(c *Contract, fn *ssa.Function) bool {
+		if fn == nil || len(fn.Params) != len(c.Params) {
+			return false
+		}
+		for i, p := range fn.Params {
+			if p.Name() != c.Params[i] {
+				return false
+			}
+		}
+		if fn.Signature.Results().Len() != len(c.Results) {
+			return false
+		}
+		// every captured variable the contract declares must be captured
+		fv := map[string]bool{}
+		for _, v := range fn.FreeVars {
+			fv[v.Name()] = true
+		}
+		for _, l := range c.Locals {
+			if _, isFree := e.closureFreeVarOf(c.Name, l.Name); isFree && !fv[l.Name] {
+				return false
+			}
+		}
+		return true
+	}
+	byParent := map[string][]string{}
+	for name, c := range e.spec.Contracts {
+		if c.Extern || c.Callback {
+			continue
+		}
+		if k := strings.LastIndex(name, "$"); k > 0 {
+			byParent[name[:k]] = append(byParent[name[:k]], name)
+		}
+	}
+	var parents []string
+	for p := range byParent {
+		parents = append(parents, p)
+	}
+	sort.Strings(parents)
+	for _, parent := range parents {
+		cs := byParent[parent]
+		sort.Strings(cs)
+		ok := true
+		for _, n := range cs {
+			if !fits(e.spec.Contracts[n], e.funcs[n]) {
+				ok = false
+			}
+		}
+		if ok {
+			continue
+		}
+		var actual []string
+		for n := range e.funcs {
+			if strings.HasPrefix(n, parent+"$") && !strings.Contains(n[len(parent)+1:], "$") {
+				actual = append(actual, n)
+			}
+		}
+		sort.Strings(actual)
+		// enumerate the injections contract -> closure that fit
+		var found [][]string
+		cur := make([]string, len(cs))
+		used := map[string]bool{}
+		var rec func(i int)
+		rec = func(i int) {
+			if len(found) > 1 {
+				return
+			}
+			if i == len(cs) {
+				found = append(found, append([]string{}, cur...))
+				return
+			}
+			for _, a := range actual {
+				if !used[a] && fits(e.spec.Contracts[cs[i]], e.funcs[a]) {
+					used[a] = true
+					cur[i] = a
+					rec(i + 1)
+					used[a] = false
+				}
+			}
+		}
+		rec(0)
+		if len(found) != 1 {
+			continue
+		}
+		moved := map[string]*Contract{}
+		for i, n := range cs {
+			moved[found[0][i]] = e.spec.Contracts[n]
+			delete(e.spec.Contracts, n)
+		}
+		for i, n := range cs {
+			nn := found[0][i]
+			c := moved[nn]
+			c.Name = nn
+			e.spec.Contracts[nn] = c
+			if nn != n {
+				e.renamed[n] = nn
+			}
+		}
+	}
+	if len(e.renamed) == 0 {
+		return
+	}
+	for _, td := range e.spec.Threads {
+		for i, r := range td.Roots {
+			if nn, ok := e.renamed[r]; ok {
+				td.Roots[i] = nn
+			}
+		}
+	}
+}
+
+// closureFreeVarOf: is `name` a captured variable of the closure the contract was written
+// for? Decided from the contract text alone: a declared local that is not one of the header's
+// parameters or results may be either a local or a captured variable, so only the variables
+// of the *enclosing* function qualify.
+func (e *Engine) closureFreeVarOf(closure, name string) (string, bool) {
+	k := strings.LastIndex(closure, "$")
+	if k < 0 {
+		return "", false
+	}
+	parent := e.funcs[closure[:k]]
+	if parent == nil {
+		return "", false
+	}
+	for _, p := range parent.Params {
+		if p.Name() == name {
+			return name, true
+		}
+	}
+	for _, b := range parent.Blocks {
+		for _, in := range b.Instrs {
+			if a, ok := in.(*ssa.Alloc); ok && a.Comment == name {
+				return name, true
+			}
+		}
+	}
+	return "", false
 }
 
 // renameCandidate: see loadSpecs.
